@@ -168,6 +168,8 @@ pub enum Node {
 	Wrong(u8),
 	/// not a marker
 	Decoy(u8),
+	/// a FIFO carrying the name of a file marker: neither a file nor a directory, so never a marker
+	Special(u8),
 }
 
 #[derive(Clone, Debug, Serialize, Deserialize)]
@@ -246,6 +248,7 @@ fn run_chain(c: &ChainCase) -> Outcome {
 					(m, !d)
 				}
 				Node::Decoy(k) => (DECOYS[*k as usize % DECOYS.len()], *k % 3 == 1),
+				Node::Special(_) => continue, // second pass below
 			};
 			let p = cur.join(name);
 			if p.exists() {
@@ -256,6 +259,19 @@ fn run_chain(c: &ChainCase) -> Outcome {
 				std::fs::create_dir(&p).unwrap();
 			} else {
 				std::fs::write(&p, b"x").unwrap();
+			}
+		}
+		for n in level {
+			if let Node::Special(k) = n {
+				let (m, _) = ORIGIN_MARKERS[*k as usize % ORIGIN_MARKERS.len()];
+				let p = cur.join(m);
+				if !p.exists() {
+					let cp = std::ffi::CString::new(std::os::unix::ffi::OsStrExt::as_bytes(p.as_os_str())).unwrap();
+					unsafe {
+						libc::mkfifo(cp.as_ptr(), 0o644);
+					}
+					wrong = true;
+				}
 			}
 		}
 		if has_right {
@@ -330,7 +346,7 @@ fn run_chain(c: &ChainCase) -> Outcome {
 
 fn chain_strategy() -> BoxedStrategy<ChainCase> {
 	let n = ORIGIN_MARKERS.len() as u8;
-	let node = prop_oneof![5 => (0..n).prop_map(Node::Right), 3 => (0..n).prop_map(Node::Wrong), 2 => (0u8..8).prop_map(Node::Decoy)];
+	let node = prop_oneof![5 => (0..n).prop_map(Node::Right), 3 => (0..n).prop_map(Node::Wrong), 2 => (0u8..8).prop_map(Node::Decoy), 1 => (0..n).prop_map(Node::Special)];
 	let level = prop_oneof![3 => Just(vec![]), 4 => proptest::collection::vec(node.clone(), 1..3), 1 => proptest::collection::vec(node, 3..8)];
 	(proptest::collection::vec(level, 1..7), 0u8..7, 0u8..3)
 		.prop_map(|(levels, start, start_kind)| ChainCase { levels, start, start_kind })
@@ -455,7 +471,7 @@ pub fn check(e: &Engine) {
 	// every marker alone, right-typed and wrong-typed, at one level
 	let mut singles = Vec::new();
 	for k in 0..ORIGIN_MARKERS.len() as u8 {
-		for node in [Node::Right(k), Node::Wrong(k)] {
+		for node in [Node::Right(k), Node::Wrong(k), Node::Special(k)] {
 			singles.push(ChainCase {
 				levels: vec![vec![], vec![node.clone()], vec![]],
 				start: 2,
@@ -470,14 +486,14 @@ pub fn check(e: &Engine) {
 	}
 	e.enumerate(
 		"single-markers",
-		"every recognised marker alone, as the right and as the wrong node type, in the start directory and in an ancestor",
+		"every recognised marker alone, as the right node type, as the wrong one and as a FIFO of that name, in the start directory and in an ancestor",
 		true,
 		singles,
 		&run_chain,
 	);
 	e.explore(
 		"chains",
-		LegOpts::det(e.tier.pick(8_000, 200_000), "chains of 1-6 nested dirs with random right-typed / wrong-typed markers and decoys per level, starting at any depth from a dir, a file, or a non-existent leaf; non-trivial = >=2 marked levels or a wrong-typed marker"),
+		LegOpts::det(e.tier.pick(8_000, 200_000), "chains of 1-6 nested dirs with random right-typed / wrong-typed markers, FIFOs named like markers and decoys per level, starting at any depth from a dir, a file, or a non-existent leaf; non-trivial = >=2 marked levels or a wrong-typed marker"),
 		&chain_strategy,
 		&run_chain,
 	);
